@@ -41,7 +41,8 @@ func (f FieldMeta) Reduce(_ ReductionContext) (definitions.FieldMetadata, error)
 
 // IsJsonVisible tells whether encoding/json emits the field at all
 func (f FieldMeta) IsJsonVisible() bool {
-	if !ast.IsExported(f.Name) {
+	// An embedded struct contributes its promoted fields whatever the type's own name is
+	if !f.IsEmbedded && !ast.IsExported(f.Name) {
 		return false
 	}
 	if fieldNode, ok := f.Node.(*ast.Field); ok && fieldNode != nil && fieldNode.Tag != nil {
